@@ -18,8 +18,8 @@ var (
 
 // N: Calculates the Merkle root from integers.
 func N(v []types.ByteSequence, hashFunc func(types.ByteSequence) types.OpaqueHash) types.ByteSequence {
-	// [[]] should result zero hash
-	if len(v) == 0 || v[0] == nil {
+	// [] and [[]] should result zero hash; a longer sequence is folded even when its first item is nil
+	if len(v) == 0 || (len(v) == 1 && v[0] == nil) {
 		// H0 - return zero hash as bytes
 		return types.ByteSequence(zeroHash[:])
 	} else if len(v) == 1 {
